@@ -1,5 +1,6 @@
 import FsutilModel.Model.Filter
 import FsutilModel.Model.FollowLinks
+import FsutilModel.Model.ModeStr
 /-! Tree-level reference model of `copy.Copy` (copy/copy.go): where the source lands (basename /
 directory-contents / trailing-separator rules), overlay onto existing content, include/exclude
 selection with on-demand ancestors, options (chown, mode, utime), hard-link groups, notifications.
@@ -17,6 +18,7 @@ structure Args where
   exc : List Pat := []
   chown : Option (Nat × Nat) := none
   mode : Option Nat := none          -- unix bits (0o7777)
+  modeStr : Option Path := none      -- symbolic mode (overrides `mode`)
   utime : Option Int := none
 deriving Repr
 
@@ -58,9 +60,12 @@ def permMask : Nat := 511 ||| modeSetuid ||| modeSetgid ||| modeSticky
 def applyInfo (a : Args) (src : StatE) (existingX : List (Path × Path)) : StatE × Option Int :=
   let (u, g) := a.chown.getD (src.uid, src.gid)
   let mode := if src.isSymlink then src.mode else
-    match a.mode with
-    | some m => (src.mode &&& (4294967295 - permMask)) ||| goPermOfUnix m
-    | none => src.mode
+    match a.modeStr with
+    | some ms => (MS.applyModeStr ms src.mode).getD src.mode
+    | none =>
+      match a.mode with
+      | some m => (src.mode &&& (4294967295 - permMask)) ||| goPermOfUnix m
+      | none => src.mode
   let xs := src.xattrs ++ existingX.filter (fun kv => !src.xattrs.any (·.1 = kv.1))
   ({ src with uid := u, gid := g, mode := mode, xattrs := xs }, some (a.utime.getD src.mtime))
 
@@ -168,38 +173,74 @@ def landing (a : Args) (srcIsDir : Bool) (dstTree : List Snap) (dstRel : Path) (
     some (if (!a.cdc && srcIsDir && dest.isSome) || (!srcIsDir && dest.isSome && dest.getD false)
       then joinP2 dstRel (let b := baseB a.src; if b = [47] || b = [dot] then [] else b) else dstRel)
 
-/-- after the children of an included directory have been copied its timestamp is (re)applied; directories are
-handled when first met above, so the only late effect to model is none at tree level (mtime recorded there) -/
-def expectedCopy (a : Args) (srcTree dstTree : List Snap) (srcRel dstRel : Path) (dstHasBase : Bool) : Res :=
+/-- one source (already resolved to `srcRel`, named `srcArg` in the call) copied onto the working tree `t1`
+(parents of the destination argument already ensured) -/
+def copyOne (a : Args) (srcTree : List Snap) (srcRel srcArg dstRel : Path) (s0 : St) : Except String St :=
   match srcTree.find? (·.st.path = srcRel), srcRel with
-  | none, _ :: _ => .err "source does not exist"
+  | none, _ :: _ => .error "source does not exist"
   | srcEnt, _ =>
     let srcIsDir := match srcEnt with | some e => e.st.isDir | none => true
-    let rootNode : Node := { path := [], st := { path := [], mode := modeDir ||| 493, uid := 0, gid := 0, size := 0, mtime := 0, linkname := [],
-                                                   devmajor := 0, devminor := 0 }, mtime := none }
-    let t0 := rootNode :: dstTree.map nodeOfSnap
-    -- ensureDstPath
-    let ensure := if dstHasBase then parentOf dstRel else dstRel
-    match mkdirAll a t0 ensure with
+    let t1 := s0.tree
+    let dest := (findN t1 dstRel).map (·.st.isDir)
+    let destExists := dest.isSome
+    let destIsDir := dest.getD false
+    let dstFinal := if (!a.cdc && srcIsDir && destExists) || (!srcIsDir && destExists && destIsDir)
+      then joinP2 dstRel (let b := baseB srcArg; if b = [47] || b = [dot] then [] else b) else dstRel
+    let target := if a.cdc && srcIsDir && !destExists then dstFinal else parentOf dstFinal
+    match mkdirAll a t1 target with
+    | .error w => .error w
+    | .ok t2 =>
+      let sub := srcTree.filter fun e => e.st.path = srcRel || srcRel = [] || underB srcRel e.st.path
+      -- the source root itself (srcRel = "") has no snapshot entry: a synthetic directory entry stands for it
+      let rootEnt : List Snap := if srcRel = [] then
+        [{ st := { path := [], mode := modeDir ||| 493, uid := 0, gid := 0, size := 0, mtime := 1500000000000000000, linkname := [],
+                   devmajor := 0, devminor := 0 }, ino := 0, nlink := 2 }] else []
+      -- a new directory entry in the parent of the landing path changes that parent's mtime; unless the parent was created by
+      -- MkdirAll (its time is fixed up at the very end of the call) it is from now on whatever the kernel chose
+      let isNew := (findN t2 dstFinal).isNone
+      let par := parentOf dstFinal
+      let t3 := if isNew && par ≠ [] then t2.map (fun n => if n.path = par then { n with mtime := if n.permFree then a.utime else none } else n) else t2
+      (rootEnt ++ sub).foldlM (copyEntry a (rootEnt ++ sub) srcRel dstFinal) { s0 with tree := t3, lazyDone := [] }
+
+/-- the whole call: ensure the destination's parents, then copy every source (one, or the wildcard matches in order) -/
+def expectedCopyMulti (a : Args) (srcTree dstTree : List Snap) (srcs : List (Path × Path)) (dstRel : Path) (dstHasBase : Bool) : Res :=
+  let rootNode : Node := { path := [], st := { path := [], mode := modeDir ||| 493, uid := 0, gid := 0, size := 0, mtime := 0, linkname := [],
+                                                 devmajor := 0, devminor := 0 }, mtime := none }
+  let t0 := rootNode :: dstTree.map nodeOfSnap
+  let ensure := if dstHasBase then parentOf dstRel else dstRel
+  match mkdirAll a t0 ensure with
+  | .error w => .err w
+  | .ok t1 =>
+    match srcs.foldlM (fun (s : St) (sr : Path × Path) => copyOne a srcTree sr.1 sr.2 dstRel s) { tree := t1 } with
     | .error w => .err w
-    | .ok t1 =>
-      let dest := (findN t1 dstRel).map (·.st.isDir)
-      let destExists := dest.isSome
-      let destIsDir := dest.getD false
-      let dstFinal := if (!a.cdc && srcIsDir && destExists) || (!srcIsDir && destExists && destIsDir)
-        then joinP2 dstRel (let b := baseB a.src; if b = [47] || b = [dot] then [] else b) else dstRel
-      let target := if a.cdc && srcIsDir && !destExists then dstFinal else parentOf dstFinal
-      match mkdirAll a t1 target with
-      | .error w => .err w
-      | .ok t2 =>
-        let sub := srcTree.filter fun e => e.st.path = srcRel || srcRel = [] || underB srcRel e.st.path
-        -- the source root itself (srcRel = "") has no snapshot entry: a synthetic directory entry stands for it
-        let rootEnt : List Snap := if srcRel = [] then
-          [{ st := { path := [], mode := modeDir ||| 493, uid := 0, gid := 0, size := 0, mtime := 1500000000000000000, linkname := [],
-                     devmajor := 0, devminor := 0 }, ino := 0, nlink := 2 }] else []
-        match (rootEnt ++ sub).foldlM (copyEntry a (rootEnt ++ sub) srcRel dstFinal) { tree := t2 } with
-        | .error w => .err w
-        | .ok s => .ok s.tree s.notif
+    | .ok s => .ok s.tree s.notif
+
+def expectedCopy (a : Args) (srcTree dstTree : List Snap) (srcRel dstRel : Path) (dstHasBase : Bool) : Res :=
+  expectedCopyMulti a srcTree dstTree [(srcRel, a.src)] dstRel dstHasBase
+
+/-- splitWildcards: the literal directory prefix and the pattern from the first wildcard component on -/
+def splitWild (src : Path) : Path × Path :=
+  let cs := (comps (clean src))
+  let rec go : List Path → List Path → List Path × List Path
+    | acc, [] => (acc.reverse, [])
+    | acc, c :: rest => if FL.containsWildcards c then (acc.reverse, c :: rest) else go (c :: acc) rest
+  let (p1, p2) := go [] cs
+  (joinSep (p1.map fun c => if c = [] then [47] else c) |> clean, joinSep p2)
+
+/-- resolveWildcards: entries below `base` (walk order) whose path relative to it matches the pattern; a matched directory is not descended into -/
+def wildMatches (srcTree : List Snap) (base pat : Path) : List Path :=
+  let rec go : List Snap → Option Path → List Path → List Path
+    | [], _, acc => acc.reverse
+    | e :: rest, skip, acc =>
+      let p := e.st.path
+      let skipped := match skip with | some d => underB d p | none => false
+      if skipped then go rest skip acc
+      else if !(base = [] || underB base p) then go rest none acc
+      else
+        let rel := if base = [] then p else p.drop (base.length + 1)
+        if FL.fnMatch pat rel then go rest (if e.st.isDir then some p else none) (p :: acc)
+        else go rest none acc
+  go srcTree none []
 
 end Fsm.C
 
